@@ -91,9 +91,9 @@ AtomsCGW == {Brk("[#A]", "A", 0, 0, <<>>), Brk("[#B]", "B", 0, 0, <<>>)}
 SymsW  == {".", "-", "=", "#"}
 DescQ  == {Dsc("$", ""), Dsc(">", "A"), Dsc("!", "")}
 DescT  == {Dsc("$", ""), Dsc("$", "A"), Dsc(">", ""), Dsc("<", "1A"), Dsc("!", "")}
-SymsQ  == {"="}
-SymsT  == {"-", "=", "#"}
-SymsA  == {".", "-", "=", "#", "$"}
+SymsQ  == {"=", ":"}
+SymsT  == {"-", "=", "#", ":"}
+SymsA  == {".", "-", "=", "#", "$", ":"}
 RingsQ == {RingF(1, "d")}
 RingsT == {RingF(1, "d"), RingF(10, "%")}
 NoSlash == {}
